@@ -49,6 +49,7 @@ type CallCfg struct {
 	Flag     bool   `json:"flag"`     // ReturnErrOnFailedRuleEvaluation
 	CancelAt int    `json:"cancelAt"` // observable point at which the context is cancelled (-1 never, 0 before the call)
 	Deadline bool   `json:"deadline"` // use an already expired deadline instead of cancel (CancelAt == 0)
+	Shadow   bool   `json:"shadow"`   // run the same call once more on a fresh instance WITHOUT any listener and report its outcome with the return
 	NestAt   int    `json:"nestAt"`   // the NestAt-th fact-method call of the run executes another, independent rule set on the SAME engine value (0 never)
 	UseCtx   bool   `json:"useCtx"`   // ExecuteWithContext instead of Execute
 }
@@ -111,6 +112,50 @@ func preRun(dc ast.IDataContext) {
 	}
 	if err := (&engine.GruleEngine{MaxCycle: 2}).Execute(dc, kb); err != nil {
 		panic("pre-run on the shared data context: " + err.Error())
+	}
+}
+
+// shadowRun executes the first call of the case on a fresh instance with NO listener registered: what a run does
+// may not depend on whether anybody watches it (C06: any number of registered listeners).
+func shadowRun(c *Case, cc *CallCfg, watchdog time.Duration) (J, string, bool) {
+	kb, err := BuildInstance(c)
+	if err != nil {
+		return nil, "", false
+	}
+	w := cc.World.Clone()
+	dc := w.DataContext()
+	if c.Variant == "sharedctx" {
+		preRun(dc)
+	}
+	eng := &engine.GruleEngine{MaxCycle: cc.Max, ReturnErrOnFailedRuleEvaluation: cc.Flag}
+	type res struct {
+		err error
+		pan interface{}
+	}
+	done := make(chan res, 1)
+	go func() {
+		var r res
+		defer func() {
+			if p := recover(); p != nil {
+				r.pan = p
+			}
+			done <- r
+		}()
+		if cc.UseCtx {
+			r.err = eng.ExecuteWithContext(context.Background(), dc, kb)
+		} else {
+			r.err = eng.Execute(dc, kb)
+		}
+	}()
+	select {
+	case r := <-done:
+		if r.pan != nil {
+			return w.Snapshot(), "panic", true
+		}
+		cls, _ := classify(r.err, nil)
+		return w.Snapshot(), cls, true
+	case <-time.After(watchdog):
+		return w.Snapshot(), "hang", true
 	}
 }
 
@@ -444,6 +489,11 @@ func runCall(c *Case, ci int, kb *ast.KnowledgeBase, em *Emitter, watchdog time.
 	}
 	ret["lsnok"] = lsnOK
 	ret["complete"] = dc.IsComplete()
+	if cc.Shadow && ci == 0 && cc.Mode == "exec" && cc.CancelAt < 0 && !cc.Deadline && !hung {
+		if facts0, err0, ok := shadowRun(c, cc, watchdog); ok {
+			ret["facts0"], ret["err0"] = facts0, err0
+		}
+	}
 	w.F.hook, w.F.gate = nil, nil
 	em.Emit(ret)
 }
